@@ -186,6 +186,10 @@ def one_connect(sess, cfg, maxdata, strays, stats, rng, real_keys=None, kid_base
     else:
         t = 0           # index of the most recent challenge
         for i in range(nkeys):
+            if t >= len(challenge_arg0):
+                # the device was never given the signature that would have made it challenge again: the host left the handshake early
+                viol.append({"mechanism": "handshake-abandoned", "detail": "connect(%s keys=%d): the host stopped after %d of the signatures the device was waiting for: connect() gave %s" % (oc, nkeys, i, out.brief(160))})
+                return viol, out, ("abandoned", None)
             if challenge_arg0[t] != wire.AUTH_TOKEN:
                 result = ("exc", "InvalidResponseError")
                 break
@@ -316,7 +320,8 @@ def run_case(case):
     sim = simdev.SimDevice(rng=gen.rng_for("C05sim", case["seed"]), maxdata=case["maxdata"], remote_ids="random")
     bkind = rng.choice(["bytes", "bytes", "str", "bytearray", "none"])
     banner = {"bytes": b"verif", "str": "verif-\u00e9", "bytearray": bytearray(b"verif-ba"), "none": None}[bkind]
-    sess = session.Session(case["impl"], sim=sim, banner=banner)
+    # (the handshake packets of the real-signer cases arrive in fragments: a token assembled from several reads is a token like any other)
+    sess = session.Session(case["impl"], sim=sim, banner=banner, **({"frag": ["one", "random", "minus1"][len(case["seed"]) % 3]} if (case.get("real") and case["first"]["outcome"] != "pubkey") else {}))      # (not while the user is given seconds to confirm: a header whose first byte comes later than read_timeout_s and whose rest needs another read is given up, as any trickling packet is)
     import socket
     sess.expected_banner = {"bytes": b"verif", "str": "verif-\u00e9".encode("utf8"), "bytearray": b"verif-ba", "none": (socket.gethostname() or "unknown").encode("utf8")}[bkind]
     viol = []
@@ -325,8 +330,17 @@ def run_case(case):
         if case.get("real"):
             real = make_real_keys(case["first"]["nkeys"])
             stats["real_rsa_cases"] += 1
+        pubs_before = [bytes(k.GetPublicKey().encode("utf8") if isinstance(k.GetPublicKey(), str) else k.GetPublicKey()) for k in (real or [])]
         v, out, result = one_connect(sess, case["first"], case["maxdata"], case["strays"], stats, rng, real_keys=real)
         viol += v
+        # the caller's key material is the caller's: a handshake leaves every signer's public key as it was
+        for k_, before in zip(real or [], pubs_before):
+            now = k_.GetPublicKey()
+            now = bytes(now.encode("utf8") if isinstance(now, str) else now)
+            stats["public_keys_compared_after_connect"] = stats.get("public_keys_compared_after_connect", 0) + 1
+            if now != before:
+                viol.append({"mechanism": "signer-key-changed", "detail": "after connect() the %s returns a different public key (%d bytes, %d before; tail %r)" % (type(k_.signer).__name__, len(now), len(before), now[-6:])})
+                break
         if result[0] == "ret" and out.ok and rng.random() < 0.3 and 0 < case["maxdata"] <= 2 * 1024 * 1024:      # (the library allocates a send buffer of maxdata bytes per transfer)
             # maxdata adoption is also visible in the WRTE sizes of a following push
             size = min(3 * case["maxdata"], 400000) if case["maxdata"] <= 1024 * 1024 else 1500000
